@@ -46,7 +46,27 @@ pub const PROBES: &[Probe] = &[
     Probe { name: "syntax-theme", ty: PType::Enum(&["Nord", "Dracula", "GitHub", "zenburn", "1337", "OneHalfLight", "TwoDark"]), builtin: &[], extra_args: &[] },
     Probe { name: "file-style", ty: PType::Enum(STYLE_WORDS), builtin: &[("diff-so-fancy", ""), ("raw", ""), ("diff-highlight", "")], extra_args: &[] },
     Probe { name: "commit-style", ty: PType::Enum(STYLE_WORDS), builtin: &[("diff-highlight", ""), ("raw", ""), ("diff-so-fancy", "")], extra_args: &[] },
+    // the flags that switch a builtin feature on are options too: wherever such a flag is `true` it
+    // also enables the feature (see `eff_flags`), and an explicit `false` at a higher-priority source
+    // must win over a `true` (or the builtin feature's own value) further down
+    Probe { name: "side-by-side", ty: PType::Bool, builtin: &[("side-by-side", "true")], extra_args: &[] },
+    Probe { name: "line-numbers", ty: PType::Bool, builtin: &[("line-numbers", "true")], extra_args: &[] },
+    Probe { name: "navigate", ty: PType::Bool, builtin: &[("navigate", "true")], extra_args: &[] },
 ];
+
+/// The builtin-feature flags a section switches on, in file order, when the probe is itself such a
+/// flag: the probe's own line (written after the other flags) counts as a flag when it says `true`
+/// and takes the probe out of the list when it says `false`.
+pub fn eff_flags(flags: &[String], value: Option<&String>, probe: &str) -> Vec<String> {
+    if !is_builtin(probe) || value.is_none() {
+        return flags.to_vec();
+    }
+    let mut f: Vec<String> = flags.iter().filter(|b| *b != probe).cloned().collect();
+    if value.map(|v| v == "true").unwrap_or(false) {
+        f.push(probe.to_string());
+    }
+    f
+}
 
 /// style values that `--show-config` prints back unchanged
 pub const STYLE_WORDS: &[&str] = &["red", "blue", "green", "yellow", "cyan", "white", "bold red", "bold blue"];
@@ -319,7 +339,7 @@ pub fn feature_list(p: &Placement, pol: Policy) -> Vec<String> {
                     }
                 }
             }
-            for b in ordered(&sec.flags, pol) {
+            for b in ordered(&eff_flags(&sec.flags, sec.value.as_ref(), &p.probe), pol) {
                 add_builtin(list, &b);
             }
         }
@@ -354,7 +374,7 @@ pub fn feature_list(p: &Placement, pol: Policy) -> Vec<String> {
         add_feature(&mut list, p, f, gc, pol, 0);
     }
     // 2. builtin feature flags on the command line
-    for b in ordered(&p.cli_flags, pol) {
+    for b in ordered(&eff_flags(&p.cli_flags, p.cli_value.as_ref(), &p.probe), pol) {
         add_builtin(&mut list, &b);
     }
     if gc {
@@ -374,6 +394,9 @@ pub fn feature_list(p: &Placement, pol: Policy) -> Vec<String> {
                 mf.push(b.clone());
             }
         }
+        // the probe's own line in the main section (GIT_CONFIG_PARAMETERS overriding the file)
+        let main_value = p.envparam_value.as_ref().or(p.main.value.as_ref());
+        let mf = eff_flags(&mf, main_value, &p.probe);
         for b in ordered(&mf, pol) {
             add_builtin(&mut list, &b);
         }
@@ -386,26 +409,42 @@ pub fn feature_list(p: &Placement, pol: Policy) -> Vec<String> {
 /// feature sets is data, not precedence, and must not cause an alarm when it legitimately changes.
 pub type BuiltinTable = BTreeMap<(String, String), String>;
 
+/// The value a section gives to the probe: its own line, or, for a probe that is itself the flag of
+/// a builtin feature, that flag among the section's flags.
+pub fn eff_value(flags: &[String], value: Option<&String>, probe: &str) -> Option<String> {
+    match value {
+        Some(v) => Some(v.clone()),
+        None if is_builtin(probe) && flags.iter().any(|b| b == probe) => Some("true".to_string()),
+        None => None,
+    }
+}
+
 pub fn expected(p: &Placement, probe: &Probe, default: &str, pol: Policy, table: &BuiltinTable) -> String {
-    if let Some(v) = &p.cli_value {
-        return v.clone();
+    if let Some(v) = eff_value(&p.cli_flags, p.cli_value.as_ref(), &p.probe) {
+        return v;
     }
     let gc = !p.no_gitconfig;
     if gc {
-        if let Some(v) = &p.envparam_value {
-            return v.clone();
+        if let Some(v) = eff_value(&p.envparam_flags, p.envparam_value.as_ref(), &p.probe) {
+            return v;
         }
-        if let Some(v) = &p.main.value {
-            return v.clone();
+        if let Some(v) = eff_value(&p.main.flags, p.main.value.as_ref(), &p.probe) {
+            return v;
         }
     }
     for f in feature_list(p, pol) {
         if gc {
             if let Some(sec) = p.custom.get(&f) {
-                if let Some(v) = &sec.value {
-                    return v.clone();
+                if let Some(v) = eff_value(&sec.flags, sec.value.as_ref(), &p.probe) {
+                    return v;
                 }
             }
+        }
+        // side-by-side gives `line-numbers` its value only by enabling the feature line-numbers, which
+        // is in the list in its own right (with its custom section in front of it); the calibration,
+        // which sees `--features "fz side-by-side"` end in `true`, cannot tell that from a value
+        if probe.name == "line-numbers" && f == "side-by-side" {
+            continue;
         }
         if gc && p.git_colors {
             if let Some(v) = table.get(&(probe.name.to_string(), format!("{}+git-colors", f))) {
@@ -464,7 +503,8 @@ pub fn section_text_styled(name: Option<&str>, probe: &str, s: &Section, style: 
     let key = |k: &str| if style == 1 { mixed(k) } else { k.to_string() };
     let mut t = header.clone();
     // vary the position of the entries inside the section: flags first, value, features
-    for (i, b) in s.flags.iter().enumerate() {
+    let own_line = is_builtin(probe) && s.value.is_some();
+    for (i, b) in s.flags.iter().filter(|b| !(own_line && *b == probe)).enumerate() {
         if style == 2 {
             match (i + rot) % 4 {
                 0 => t.push_str(&format!("\t{} = yes\n", b)),
@@ -483,6 +523,23 @@ pub fn section_text_styled(name: Option<&str>, probe: &str, s: &Section, style: 
         if style == 2 && probe_by_name(probe).ty == PType::Str {
             t.push_str(&format!("\t{} = earlier-assignment-that-loses\n", probe));
         }
+        // git's other spellings of a boolean value
+        let respelt;
+        let v = if style == 2 && probe_by_name(probe).ty == PType::Bool {
+            respelt = match (v.as_str(), rot % 3) {
+                ("true", 0) => "yes",
+                ("true", 1) => "on",
+                ("true", _) => "1",
+                ("false", 0) => "no",
+                ("false", 1) => "off",
+                ("false", _) => "0",
+                (other, _) => other,
+            }
+            .to_string();
+            &respelt
+        } else {
+            v
+        };
         // `#` and `;` start a comment in a git config file unless the value is quoted
         if v.contains('#') || v.contains(';') {
             t.push_str(&format!("\t{} = \"{}\"\n", key(probe), v));
@@ -569,6 +626,9 @@ pub fn encode(p: &Placement, config_path: Option<&str>) -> Encoded {
         args.push(join_features(f, p.sloppy_ws));
     }
     for b in &p.cli_flags {
+        if *b == p.probe && p.cli_value.is_some() {
+            continue;
+        }
         args.push(format!("--{}", b));
     }
     for a in &p.extra_cli {
@@ -618,6 +678,9 @@ pub fn encode(p: &Placement, config_path: Option<&str>) -> Encoded {
         params.push(param("delta.features", &f.join(" ")));
     }
     for b in &p.envparam_flags {
+        if *b == p.probe && p.envparam_value.is_some() {
+            continue;
+        }
         params.push(param(&format!("delta.{}", b), "true"));
     }
     if !params.is_empty() && p.custom.len() % 3 == 0 {
